@@ -132,6 +132,14 @@ class Gen:
                 args = [self.expr(d), self.expr(d)]
             elif fn in ("pg10", "pg11") and r.random() < 0.7:
                 args = [self.expr(d)]
+            elif fn == "pg12" and r.random() < 0.8:
+                # DATE_TRUNC(unit, e): every unit of PgDateTruncUnit
+                args = ["(val s:%s)" % hexs(r.choice(["microseconds", "milliseconds", "second", "minute", "hour", "day", "week",
+                                                     "month", "quarter", "year", "decade", "century", "millennium"])), self.expr(d)]
+            elif fn == "pg9" and r.random() < 0.7:
+                args = [self.expr(d) for _ in range(2 * r.randrange(0, 3))]
+            elif fn == "round" and r.random() < 0.5:
+                args = [self.expr(d), self.expr(0)]
             n = len(args)
             if n >= 2 and r.random() < (0.4 if fn in ("greatest", "least", "coalesce", "ifnull") else 0.1):
                 args = [args[0]] * n          # the same argument repeated (GREATEST(a, a), COALESCE(x, x))
